@@ -63,6 +63,8 @@ func c14QuicScenario(c *choice.Ctx, rep *report.R, depth int) {
 	answered := map[skey]bool{}
 	serial := byte(0)
 	sent := map[byte]string{}
+	connsAtStart := map[int]int{} // exchange -> number of connections that existed when it started
+	envFaulted := false            // a dial fault or a stalled stream was scripted in this execution
 	getConns := func() []*env.FakeQuicConn {
 		cmu.Lock()
 		defer cmu.Unlock()
@@ -113,15 +115,20 @@ func c14QuicScenario(c *choice.Ctx, rep *report.R, depth int) {
 			menu = append(menu, event{name: fmt.Sprintf("start%d", len(calls)), do: func() {
 				cl := newCall(len(calls), 0)
 				calls = append(calls, cl)
+				connsAtStart[cl.idx] = len(getConns())
+				if d.Pending() > 0 || d.Hanging() > 0 {
+					connsAtStart[cl.idx] = -1 // a dial is in progress: whatever connection it yields is new to this exchange
+				}
 				cl.start(tr, timeout)
 			}})
 		}
 		if len(getConns()) == 0 || true {
-			menu = append(menu, event{name: "next-dial-refused", fault: true, do: func() { d.Script(env.DialRefuse) }})
-			menu = append(menu, event{name: "next-dial-hangs", fault: true, do: func() { d.Script(env.DialHang) }})
+			menu = append(menu, event{name: "next-dial-refused", fault: true, do: func() { envFaulted = true; d.Script(env.DialRefuse) }})
+			menu = append(menu, event{name: "next-dial-hangs", fault: true, do: func() { envFaulted = true; d.Script(env.DialHang) }})
 		}
 		if !stallNext {
 			menu = append(menu, event{name: "stall-next-stream", fault: true, do: func() {
+				envFaulted = true
 				cmu.Lock()
 				stallNext = true
 				for _, fc := range conns {
@@ -135,7 +142,55 @@ func c14QuicScenario(c *choice.Ctx, rep *report.R, depth int) {
 			if fc.IsClosed() {
 				continue
 			}
-			menu = append(menu, event{name: fmt.Sprintf("conn-dies(c%d)", ci), fault: true, do: func() { fc.Die() }})
+			menu = append(menu, event{name: fmt.Sprintf("conn-dies(c%d)", ci), fault: true, do: func() {
+				// exchanges whose query is on this connection, which for them was a connection taken over from an earlier exchange
+				var victims []*call
+				for si := 0; si < fc.NumStreams(); si++ {
+					st, _ := fc.Stream(si)
+					if answered[skey{ci, si}] {
+						continue
+					}
+					if fs, _ := env.SplitFrames(st.E.Written()); len(fs) == 1 {
+						if q, err := refdns.Decode(fs[0]); err == nil && len(q.Q) == 1 {
+							for _, cl := range calls {
+								if cl.inflight() && !cl.canceled && cl.name.Equal(q.Q[0].Name) && connsAtStart[cl.idx] > ci {
+									victims = append(victims, cl)
+								}
+							}
+						}
+					}
+				}
+				fc.Die()
+				if envFaulted || len(victims) == 0 {
+					return
+				}
+				wait()
+				// the server is healthy for new connections: the retry's query is answered
+				for j, fc2 := range getConns()[ci+1:] {
+					for si := 0; si < fc2.NumStreams(); si++ {
+						st, _ := fc2.Stream(si)
+						if fs, _ := env.SplitFrames(st.E.Written()); len(fs) == 1 && !answered[skey{ci + 1 + j, si}] {
+							if q, err := refdns.Decode(fs[0]); err == nil && len(q.Q) == 1 && !st.E.IsClosed() {
+								for _, cl := range victims {
+									if cl.name.Equal(q.Q[0].Name) && cl.inflight() {
+										answered[skey{ci + 1 + j, si}] = true
+										serial++
+										sent[serial] = q.Q[0].Name.String()
+										st.E.Inject(refdns.Frame(env.Answer(q, serial, 60).Encode(false)))
+										st.E.Peer().CloseWrite()
+									}
+								}
+							}
+						}
+					}
+				}
+				wait()
+				for _, cl := range victims {
+					if !cl.done || cl.resp == nil {
+						fail("reused-connection-failure-not-survived", fmt.Sprintf("exchange %d was on connection %d, taken over from an earlier exchange, when it died; new connections are healthy, yet the exchange did not succeed: %s", cl.idx, ci, cl))
+					}
+				}
+			}})
 			for si := 0; si < fc.NumStreams(); si++ {
 				si := si
 				st, _ := fc.Stream(si)
